@@ -1,4 +1,5 @@
 import MjProof.Lemmas.UserPoolStep
+import MjProof.Lemmas.UserPoolRank
 /-
 C33  Compilation is deterministic and copy-invariant — the asset thread pool.
 
@@ -192,6 +193,38 @@ theorem pool_done_clean (N T : Nat) (hN : 1 ≤ N) (s : State) (h : Reach N T s)
   rw [hq, hj, hz]
   have : s.nsched - s.npop = 0 := by omega
   simp [this]
+
+/-- **bounded runs** (ranking function): without spurious wake-ups every transition strictly decreases
+    `rank = weight(scheduler pc) + Σ weight(worker pc) + 5·(queued tasks) + 3·(queued sentinels)`, so a run of `n` transitions from
+    the initial state has `n ≤ rank (init N T) = 5N + 4 + 7T + N` — no schedule can keep the pool busy forever -/
+theorem pool_bounded_runs (N T : Nat) (hN : 1 ≤ N) (n : Nat) (s : State) (h : RunNS (init N T) n s) :
+    n + rank s ≤ rank (init N T) ∧ rank (init N T) ≤ 6 * N + 7 * T + 4 := by
+  refine ⟨run_bound N T hN n s h, ?_⟩
+  have hw : ∀ n, sumW (fun _ => WPc.fetch) n = n := by
+    intro n; induction n with
+    | zero => rfl
+    | succ n ih => simp [sumW, ih, wcost]
+  simp only [rank, init, qcost, hw]
+  split
+  · simp only [mcost]; omega
+  · simp only [mcost]; omega
+
+/-- **termination**: every maximal run without spurious wake-ups (one that can no longer be extended) has reached the end of
+    the destructor, and there all `T` tasks have run exactly once and all workers have exited -/
+theorem pool_terminates (N T : Nat) (hN : 1 ≤ N) (n : Nat) (s : State) (h : RunNS (init N T) n s)
+    (hmax : ¬ ∃ s', StepNS s s') :
+    s.mpc = .done ∧ (∀ t, t < s.T → s.execCnt t = 1) ∧ (∀ i, 1 ≤ i → i ≤ s.N → s.w i = .exited) := by
+  have hr := reachNS_of_run N T n s h
+  have hd : s.mpc = .done := by
+    apply Classical.byContradiction
+    intro hnd
+    exact hmax (pool_deadlock_free N T hN s hr hnd)
+  have hreach := reach_of_reachNS N T s hr
+  refine ⟨hd, ?_, (pool_done_clean N T hN s hreach hd).1⟩
+  intro t ht
+  exact ((pool_exactly_once N T hN s hreach).2.2 (Or.inr (Or.inr hd)) t ht).1
+
+example : RunNS (init 2 3) 0 (init 2 3) := RunNS.refl
 
 /-! ### tasks that write only their own asset commute -/
 
